@@ -154,7 +154,7 @@ theorem bufSetLen_spec (mem : Mem) (h : Handle) (n : Nat) (hn : n ≤ h.mt.ptrSi
       · intro i hi; exact Mem.rd_zero_out _ _ _ _ (by omega)
       · intro i h3 h4; exact Mem.rd_zero_in _ _ _ _ (by omega) (by omega)
 
-theorem alignOffset_ok (a x : Nat) (ha : a = 1 ∨ a = 2 ∨ a = 4 ∨ a = 8 ∨ a = 16) (hx : x + 16 < TWO32) :
+theorem alignOffset_ok_small (a x : Nat) (ha : a = 1 ∨ a = 2 ∨ a = 4 ∨ a = 8 ∨ a = 16) (hx : x + 16 < TWO32) :
     ∃ p, alignOffset a x = .ok p ∧ p % a = 0 ∧ x ≤ p ∧ p < x + a := by
   unfold alignOffset
   rw [if_pos (by rcases ha with rfl|rfl|rfl|rfl|rfl <;> omega)]
@@ -167,7 +167,7 @@ theorem bufAlignTo_spec (h : Handle) (ta ts : Nat) (hta : ta = 1 ∨ ta = 2 ∨ 
     (∃ p h', bufAlignTo h ta ts = .ok (.ok (some p, h')) ∧ p % ta = 0 ∧ h.mt.ptrOff + h.len ≤ p ∧
         p ≤ h.mt.ptrOff + h.mt.ptrSize ∧ h'.len = p - h.mt.ptrOff ∧ h'.mt = h.mt) ∨
     bufAlignTo h ta ts = .ok (.error .insufficient) := by
-  obtain ⟨p, hp, hp1, hp2, hp3⟩ := alignOffset_ok ta (h.mt.ptrOff + h.len) hta (by omega)
+  obtain ⟨p, hp, hp1, hp2, hp3⟩ := alignOffset_ok_small ta (h.mt.ptrOff + h.len) hta (by omega)
   unfold bufAlignTo
   rw [if_neg hts, hp]
   by_cases hc : p > h.mt.ptrOff + h.mt.ptrSize
